@@ -83,6 +83,7 @@ def run_task(task):
     oracles.LIST_ORDER = "canonical"
     from engine import fine
     fine.ENABLED["on"] = bool(task["params"].get("fine"))
+    fine.ENABLED["size_mode"] = task["params"].get("size_mode", "real") if task["params"].get("order", "canonical") != "real" else "real"
     net = symnet.family(task["family"])
     prefix = tuple(task["params"]["prefix"])
     vs, cs = hist.declare(prefix + ("sets", "seeds"), net.n)
@@ -129,9 +130,9 @@ def tasks(tier, seed, selftest=False):
     T = []
     q = tier == "quick"
 
-    def add(fam, prefix, box, cube_k=0, nbits=0, fine=True):
-        base = {"prop": PROP, "family": fam, "label": f"{fam}/{'+'.join(prefix) or 'fresh'}/{'fine' if fine else 'coarse'}", "timebox": box, "seed": seed,
-                "params": {"prefix": list(prefix), "selftest": selftest, "fine": fine}}
+    def add(fam, prefix, box, cube_k=0, nbits=0, fine=True, size_mode="real"):
+        base = {"prop": PROP, "family": fam, "label": f"{fam}/{'+'.join(prefix) or 'fresh'}/{'fine' if fine else 'coarse'}" + ("" if size_mode == "real" else "/" + size_mode), "timebox": box, "seed": seed,
+                "params": {"prefix": list(prefix), "selftest": selftest, "fine": fine, "size_mode": size_mode}}
         if cube_k:
             for cube in common.cubes(nbits, cube_k):
                 T.append(dict(base, cube=cube))
@@ -143,6 +144,14 @@ def tasks(tier, seed, selftest=False):
     for p in PREFIXES:
         add("U2", p, 25 if q else 900)
         add("D3", p, 25 if q else 1200)
+    for p in ((), ("succ",), ("seeds",)):
+        add("N3", p, 25 if q else 900)      # every variable in the NFVS: several candidates survive in minimal nodes
+    for p in ((), ("succ",), ("cands",)):
+        # decision points: the size heuristic's answer is substituted (always decline / always accept forward growth),
+        # so the verdict on the reachability loop does not depend on AEON's BDD sizes
+        for mode in ("decline", "accept"):
+            add("U2", p, 15 if q else 600, size_mode=mode)
+            add("D3", p, 20 if q else 900, size_mode=mode)
     for p in ((), ("succ",), ("fullbfs",)):
         # the coarse region oracle (REACH spec of compute_attractors_symbolic) cross-checks the fine handles
         add("U2", p, 15 if q else 600, fine=False)
